@@ -140,6 +140,11 @@ def main():
         unit2, _ = rnd.choice([u for u in UNITS if u[0] != unit])
         two = rnd.random() < 0.4
         items.append((fam, params, text, unit, unit2, two, nq))
+    if not quick:
+        # one block of 85 kDa (a support of millions of integer masses, where the library takes the normalisation constant of Schulz-Zimm as 1),
+        # built from a heavy unit so that the chain stays short
+        heavy_unit = "C(I)(I)" * 16
+        items.append(("schulz_zimm", [127500.0, 85000.0], "schulz_zimm(127500.0, 85000.0)", heavy_unit, "CC", False, 6))
     # heavy molecules first, so that the pool is balanced
     order = sorted(range(len(items)), key=lambda i: -distref.reference(items[i][0], items[i][1]).mean)
     with mp.get_context("fork").Pool(min(16, len(items)), initializer=genrun._limit_worker) as pool:
